@@ -31,15 +31,25 @@ RULE = ("(a) structured stream over a common pool of factors (harness/gen_expr.p
         "nested products) x orderings (None, shuffled covering, non-covering) for canonicalize; pairs (expression, "
         "presentation-shuffle / independent / mutated expression) for canonical_expr_equal; `den` cross-check of the Lean "
         "specification against the Python evaluator. 70% of the random stream is WellScoped (the property's quantifier, "
-        "judged by the oracle), 30% is wild (multi-world leaves, duplicate names, bound +X, Q-factors: correspondence only). "
+        "judged by the oracle), 30% is wild (multi-world leaves, duplicate names, bound +X, Q-factors: judged when inside the "
+        "widened class WellScopedW, else correspondence only). "
+        "(c) multi-world joints (gen_expr.struct_mw_*, appended after the streams above, which keep their distribution): "
+        "parent-less joint leaves whose children share a base variable across worlds / value marks (P(Y@+X, Y@-X, Z), P(Y, +Y)) "
+        "under Sums in every relation between the ranges and the duplicated / single bases (dup / single / both / all / "
+        "superset / partial / miss) x {P, PP[pi1]} x wrapper, leaves that only appear after canonicalising the summand, bare "
+        "multi-world leaves in products and fractions, multi-world leaves with distinct bases (the marginalisation must still "
+        "happen). They are INSIDE the quantifier judged by the oracle (WellScopedW) and evaluated on generic positive families "
+        "and on random functional SCMs (shared noise across worlds) under the DenNZ guard. "
         "The branches reached on the real canonicaliser are counted as hit_* tags. A case is non-trivial when the "
         "expression has depth>=3 and at least one Sum or Fraction and its canonical form differs structurally from the input.")
 ASSUMPTIONS = [
     "argument FORMS (harness/forms.py; chosen deterministically per case, stored in the case, tagged form_*): the ordering handed to canonicalize as list / tuple (the declared Sequence) and as set / frozenset / dict keys / generator / iterator / map (what dsl.ensure_ordering, its consumer, accepts: Iterable), its plain variables as Variable objects, as str names, or mixed; positional or by keyword; no ordering as omitted / None / ordering=None; canonical_expr_equal positional or by keyword (left=, right=). The model takes a list of variables: independence of the form is a runtime clause decided by correspondence + oracle",
-    "canon_den is proved for WellScoped expressions (single-world leaves with pairwise distinct names, intervened names disjoint from the leaf's own variables, no +X bound by an enclosing Sum, no Q-factor) and orderings covering the event names, under ProbFamily env and non-vanishing denominators (DenNonzero, implied by Env.Positive for expressions without Zero() in a denominator); multi-world joint terms are outside the quantifier (Sum.simplify's own FIXME)",
+    "canon_den is proved for WellScoped expressions (single-world leaves with pairwise distinct names, intervened names disjoint from the leaf's own variables, no +X bound by an enclosing Sum, no Q-factor) and orderings covering the event names, under ProbFamily env and non-vanishing denominators (DenNonzero, implied by Env.Positive for expressions without Zero() in a denominator)",
+    "multi-world joints: canon_den_mw / canon_total_mw / canonical_equal_sound_mw (Props/C10MW.lean) prove the same for the WIDENED class WellScopedW - nothing is required of the worlds or names of a leaf (children in different worlds, several children on one base variable); an unstarred subscript -X must not name a variable of its own leaf that a Sum of the expression binds (the Sum would bind subscript and event value together), no +X event value bound by a Sum, no Q-factor - for every ProbFamily (a measure on ALL counterfactual variables), in particular every well-formed functional SCM (canon_den_mw_fscm). On this class DenNZ is NOT implied by positivity (P(Y@+X, +Y@-X) vanishes at x*=x, y*!=y): it stays a hypothesis, and the oracle decides it by enumeration (expr_eval.den_nonzero) before comparing values. The model is that of the code after `fix:` d517ad1 (Sum.simplify returns the sum unchanged when several children share a base variable)",
+    "outside WellScopedW (correspondence only): a Sum binding an unstarred subscript together with the event value of the same leaf (Sum[X](P(Y@-X, X))), +X values bound by a Sum, Q-factors",
     "the Lean theorems are about the hand-written model Y0.Model.Canon/Dsl; the tie to canonicalize_expr.py/dsl.py is this run's correspondence check (sampling)",
     "Python set/frozenset iteration order is modelled as sorted order; populations are plain variables; Sum ranges are plain variables (what Sum.__post_init__ and the builders produce)",
-    "the oracle decides semantic equality by identity testing on 2 generic positive environments (drawn per case from a per-process pool of 12 cached mixture-of-products environments, a separate distribution per population and per world) x 3 random valuations (exact rationals): it cannot flag a correct rewrite, it can miss an incorrect one with small probability",
+    "the oracle decides semantic equality by identity testing on 2 generic positive environments (drawn per case from a per-process pool of 12 cached mixture-of-products environments, a separate distribution per population and per world) x 3 random valuations (exact rationals), and for expressions that are only in the widened class additionally on 1 random functional SCM per case (expr_eval.FscmEnv: random mechanisms, exogenous noise shared by all worlds) x 3 valuations, comparing only where DenNZ holds: it cannot flag a correct rewrite, it can miss an incorrect one with small probability",
 ]
 LEANCHECK_MODULES = ["Y0.Model.Dsl", "Y0.Model.Canon", "Y0.Props.C10"]
 EXHAUSTIVE = {"quick": False, "thorough": False}
@@ -162,6 +172,44 @@ def mw_cases(rng: random.Random, n: int):
     return out
 
 
+def _ordering_shape_choice(rng, e, nn):
+    """(ordering, kind): the old shapes (None / covering list of plain variables) 40%, the new shapes 60%"""
+    if rng.random() < 0.4:
+        return _rand_ordering_choice(rng, e, nn), "plain"
+    kind = rng.choice(GE.ORDERING_SHAPES)
+    return GE.rand_ordering_shape(rng, e, kind, nn), kind
+
+
+def shape_cases(rng: random.Random, n: int):
+    """(d) size and ordering shapes: wide WellScoped leaves (4-6 children, 3-4 parents, 3-4 interventions with mixed stars,
+    6-9 names) under Sums in every range mode / in products and fractions; orderings that cover only the event names,
+    contain counterfactual / value-marked / Intervention elements, or repeat elements (malformed: 'raises or is right')"""
+    out = []
+    while len(out) < n:
+        k = rng.random()
+        if k < 0.55:
+            e, lab = GE.struct_wide_expr(rng)
+            nn = max(GE.all_names(e)) + 1
+        elif k < 0.8:
+            nn = rng.choice([3, 4, 4, 5])
+            e, lab = GE.struct_expr(rng, nn)
+        else:
+            nn = rng.choice([3, 4, 4, 5])
+            e, lab = GE.struct_mw_expr(rng, nn)
+            nn += 3
+        o, kind = _ordering_shape_choice(rng, e, nn)
+        r = rng.random()
+        if r < 0.85:
+            out.append({"kind": "canon", "e": e, "ordering": o, "ordering_kind": kind, "seed": rng.randrange(1 << 30),
+                        "gen": lab})
+        elif r < 0.95:
+            out.append({"kind": "equal", "a": e, "b": GE.present_shuffle(rng, e), "seed": rng.randrange(1 << 30),
+                        "gen": "shuffle:" + lab})
+        else:
+            out.append({"kind": "den", "e": e, "seed": rng.randrange(1 << 30), "gen": lab})
+    return out
+
+
 def cases(rng: random.Random, tier: str):
     return [F.assign(c, _slots(c)) for c in _cases(rng, tier)]
 
@@ -173,6 +221,7 @@ def _cases(rng: random.Random, tier: str):
     out += structured_cases(rng, 3000 if tier == "quick" else 15000)
     out += random_cases(rng, 5000 if tier == "quick" else 65000)
     out += mw_cases(rng, 1000 if tier == "quick" else 8000)     # appended: the streams above keep their distribution
+    out += shape_cases(rng, 900 if tier == "quick" else 7000)
     return out
 
 
@@ -297,7 +346,9 @@ def run_python(case):
         except ERRS as ex:
             c = None
             out = ["err"]
-            if inq == "narrow":
+            if case.get("ordering_kind") == "dups":
+                pass      # an ordering with repeated elements is malformed: raising is fine, a returned form is judged
+            elif inq == "narrow":
                 fail = f"canonicalize raised {type(ex).__name__} on a well-scoped expression with a covering ordering"
             elif inq == "wide" and not isinstance(ex, ZeroDivisionError):
                 # (a denominator of a wide expression may canonicalise to Zero only when DenNZ fails: not judged)
@@ -311,6 +362,9 @@ def run_python(case):
         return {"out": out, "fail": fail, "nontrivial": nontrivial,
                 "tags": _tags(enc, {"kind": kind, "outcome": out[0], "judged": bool(inq), "judged_wide": inq == "wide",
                                     "shared_base": GE.has_shared_base(enc), "multiworld": GE.is_multiworld(enc),
+                                    "ordering_kind": case.get("ordering_kind", "plain" if case["ordering"] is not None else "none"),
+                                    "leaf_children>=4": GE.leaf_sizes(enc)[0] >= 4, "leaf_parents>=3": GE.leaf_sizes(enc)[1] >= 3,
+                                    "leaf_ivs>=3": GE.leaf_sizes(enc)[2] >= 3,
                                     "ordering": "none" if case["ordering"] is None else "explicit",
                                     **F.tags(_forms(case))}, case)}
     if kind == "equal":
@@ -429,11 +483,15 @@ MANIFEST = {
              "sums, fractions, One/Zero), every ordering covering its variables, every distribution family satisfying the "
              "probability laws and every valuation with non-vanishing denominators, the canonical form has the same denotation; "
              "canon_total - on such inputs canonicalisation returns an expression unless a denominator canonicalises to Zero(); "
-             "canonical_equal_sound - canonically equal expressions are semantically equal. Model tied to the Python on every "
+             "canonical_equal_sound - canonically equal expressions are semantically equal; canon_den_mw / canon_total_mw / "
+             "canonical_equal_sound_mw - the same three for the widened class WellScopedW whose leaves may be multi-world joints "
+             "with several children on one base variable (P(Y@+X, Y@-X, Z)), for every distribution family on counterfactual "
+             "variables and in particular every functional SCM (after the repair of Sum.simplify found through that class). Model tied to the Python on every "
              "run by differential testing on raw expression objects; the specification's denotation is cross-checked against "
              "the exact-rational oracle evaluator on shared concrete environments."),
     "note": ("Trusted: Lean kernel; the specification Y0/Spec/Sem.lean (den, ProbFamily); the hand-written model tied to the "
-             "code by sampling. Outside the quantifier (and outside the theorem): multi-world joint leaves, leaves repeating a "
-             "name, +X values bound by a Sum, Q-factors, Zero() inside denominators."),
+             "code by sampling. Outside the quantifier (and outside the theorems): a Sum that binds an unstarred subscript "
+             "together with an event value of the same leaf, +X values bound by a Sum, Q-factors, Zero() inside denominators; "
+             "on multi-world leaves non-vanishing denominators are a hypothesis (not implied by positivity)."),
     "technique": "Lean 4 theorems over the denotational semantics + differential correspondence with canonicalize() + exact-rational identity-testing oracle",
 }
